@@ -185,7 +185,9 @@ def float_plane_residual(a, b, p):
     the same jitted primitives the implementation uses"""
     I = impl()
     af, bf, pf = np.array(a, dtype=float), np.array(b, dtype=float), np.array(p, dtype=float)
-    return abs(float(I["jdot"](np.asarray(I["jcross"](af, bf)), pf)))
+    n = I["jcross"](af, bf)
+    n = n / np.linalg.norm(n)          # unit normal since 5fda323f
+    return abs(float(I["jdot"](np.asarray(n), pf)))
 
 
 def ulp_sensitive_pwg(a, b, p, want, rng, tries=60):
@@ -639,6 +641,7 @@ def gca_float_residuals(a, b, c, d):
     n1, n2 = I["jcross"](w0, w1), I["jcross"](v0, v1)
     x = I["jcross"](n1, n2)
     x1 = x / I["jnorm"](x)
+    n1, n2 = n1 / np.linalg.norm(n1), n2 / np.linalg.norm(n2)      # point_within_gca tests against the unit normals
     return [(cand, abs(float(I["jdot"](np.asarray(n1), np.asarray(cand)))),
              abs(float(I["jdot"](np.asarray(n2), np.asarray(cand))))) for cand in (x1, -x1)]
 
@@ -656,9 +659,9 @@ def judge_pwg(a, b, p, want, rng, mf=None):
     if pa in (None, "meridian"):
         info["cause"] = "unexplained"
         if (not want) and r is True and dot(cross(a, b), p) != 0:
-            # the on-plane test compares |(a x b).p| for UNIT a, b, p with an absolute tolerance, but |a x b| = sin(arc):
-            # is the exact value of that quantity already within ERROR_TOLERANCE?
-            resid = float(abs(Fraction(dot(cross(a, b), p))) / (norm_frac(a) * norm_frac(b) * norm_frac(p)))
+            # the on-plane test compares |n.p| for the unit normal n = (a x b)/|a x b| and the unit point p (since 5fda323f;
+            # before, n was not normalised): is the exact value of that quantity already within ERROR_TOLERANCE?
+            resid = float(abs(Fraction(dot(cross(a, b), p))) / (norm_frac(cross(a, b)) * norm_frac(p)))
             if resid <= impl()["tol"]:
                 info["cause"] = "plane_test_abs_tol"
         if want and r is False:
